@@ -94,6 +94,8 @@ BASELINES = {
                  "usage": {"base": 20.0, "hs": 1.2, "hb": 52.0, "cs": 0.8, "cb": 68.0}, "noise": 0.05, "weekend_shift": 0.0, "season_shift": 0.0,
                  "south": False, "electric": True},
 }
+for _k in ("caltrack", "hourly", "daily"):
+    BASELINES[_k + "_reloaded"] = dict(BASELINES[_k], reloaded=True)
 
 
 def run_history(steps, family, rec, case=None):
@@ -105,6 +107,9 @@ def run_history(steps, family, rec, case=None):
     # the object under test is the one fit() worked on (a deep copy would hide containers shared between model objects);
     # CalTRACK fits take tens of seconds and stay memoised
     m, base_data = zoo.fitted(b) if fam == "caltrack" else zoo.fit_fresh(b)
+    if b.get("reloaded"):
+        # the object under test is a stored model read back (it has never predicted anything, unlike a model that fit() just produced)
+        m = zoo.model_class(fam).from_json(m.to_json())
     snapshot = json.loads(m.to_json())
     pristine = copy.deepcopy(m)
     pool = {}
@@ -140,6 +145,12 @@ def run_history(steps, family, rec, case=None):
             except Exception as e:
                 rec.note("predict-raises:" + type(e).__name__)
                 p = None
+                try:
+                    zoo.predict(copy.deepcopy(pristine), b, d) if flag else _predict_noflag(copy.deepcopy(pristine), b, d)
+                    rec.violation(K + "/predict-raises-only-after-history", case, "step %d predict(span %s) raises %s: %s; a copy of the unused model predicts the same data" % (
+                        steps.index(step), i, type(e).__name__, str(e)[:120]))
+                except Exception:
+                    pass
             if p is not None:
                 ref = zoo.predict(copy.deepcopy(pristine), b, d)
                 dd = zoo.frame_bits_equal(p, ref)
@@ -425,6 +436,9 @@ def shards(tier, seed):
             out.append({"sub": "history", "family": fam, "n": 4 if q else 50, "steps": 7 if q else 25, "seed": mix(seed, ID, fam, i)})
     for i in range(2):
         out.append({"sub": "history", "family": "caltrack", "n": 2 if q else 8, "steps": 8 if q else 14, "seed": mix(seed, ID, "caltrack", i)})
+    out.append({"sub": "history", "family": "caltrack_reloaded", "n": 3 if q else 10, "steps": 8 if q else 14, "seed": mix(seed, ID, "caltrack_reloaded")})
+    out.append({"sub": "history", "family": "hourly_reloaded", "n": 4 if q else 40, "steps": 7 if q else 25, "seed": mix(seed, ID, "hourly_reloaded")})
+    out.append({"sub": "history", "family": "daily_reloaded", "n": 4 if q else 40, "steps": 7 if q else 25, "seed": mix(seed, ID, "daily_reloaded")})
     for i in range(4):
         out.append({"sub": "ctor", "n": 40 if q else 500, "seed": mix(seed, ID, "ctor", i)})
     return out
